@@ -96,3 +96,23 @@ func VH_C13_Cond(p []int) {
 	verifAssert(!c.IsNesting(), "IsNesting-text")
 	verifReach("end")
 }
+
+// "CanNest is true exactly when a nested Stack would currently be accepted":
+// an instance that accepts nothing at all (zero value, freed) answers false.
+func VH_C13_Unusable(p []int) {
+	var z Stack
+	verifAssert(!z.CanNest(), "zero-stack-CanNest")
+	z.Push(And().Push("x"))
+	verifAssert(z.Len() == 0 && !z.IsNesting(), "zero-stack-accepts-nothing")
+	f := Or().Push("a")
+	h := f
+	_ = f.Free()
+	verifAssert(!f.CanNest(), "freed-stack-CanNest")
+	verifAssert(h.CanNest(), "other-handle-still-answers")
+	verifAssert(!Stack(vhAliasStack{}).CanNest(), "zero-alias-CanNest")
+	var zc Condition
+	verifAssert(!zc.CanNest(), "zero-condition-CanNest")
+	zc.SetExpression(And().Push("x"))
+	verifAssert(!zc.IsNesting(), "zero-condition-accepts-nothing")
+	verifReach("end")
+}
